@@ -26,13 +26,31 @@ for name in names:
         r1 = run()
         os.remove(dest)
         tests = meta.get("tests", [])
-        rt = subprocess.run(["go", "test", "-vet=off", "-count=1"] + tests, cwd=wt, env=env, capture_output=True, text=True) if tests else None
-        ok = r0.returncode == 0 and a.returncode == 0 and b.returncode == 0 and r1.returncode != 0 and (rt is None or rt.returncode == 0)
+        rt = None
+        tests_ok = True
+        if tests:
+            # the repository's own tests, judged the way the baseline is: no test of BASELINE.stable_pass may stop passing
+            # (browser-dependent tests fail in this sandbox with or without any patch and are not in that set)
+            rt = subprocess.run(["go", "test", "-json", "-vet=off", "-count=1", "-timeout", "60m"] + tests, cwd=wt, env=env, capture_output=True, text=True)
+            stable = set(json.load(open("/root/.vp/BASELINE.json"))["stable_pass"])
+            res = {}
+            for line in rt.stdout.splitlines():
+                try:
+                    j = json.loads(line)
+                except Exception:
+                    continue
+                if j.get("Test") and j.get("Action") in ("pass", "fail", "skip"):
+                    res[j["Package"] + "::" + j["Test"]] = j["Action"]
+            pk = {k.split("::")[0] for k in res}
+            broken = sorted(t for t in stable if t.split("::")[0] in pk and res.get(t) != "pass")
+            tests_ok = not broken
+            if broken:
+                print("   stable tests not passing with the patch:", broken[:10])
+        ok = r0.returncode == 0 and a.returncode == 0 and b.returncode == 0 and r1.returncode != 0 and tests_ok
         meta["confirmed"] = {"demo_passes_without": r0.returncode == 0, "patch_applies": a.returncode == 0, "builds": b.returncode == 0,
-                             "demo_fails_with": r1.returncode != 0, "package_tests_pass_with": None if rt is None else rt.returncode == 0,
+                             "demo_fails_with": r1.returncode != 0, "package_tests_pass_with": None if rt is None else tests_ok,
                              "ran": "go test -vet=off -count=1 " + " ".join(meta["demo_run"]) + (" ; tests: " + " ".join(tests) if tests else ""), "ok": ok}
         json.dump(meta, open(mp, "w"), indent=1)
         print(name, "CONFIRMED" if ok else "NOT CONFIRMED", meta["confirmed"])
-        if rt is not None and rt.returncode != 0: print(rt.stdout[-800:])
     finally:
         subprocess.run(["git", "-C", "/repo", "worktree", "remove", "--force", wt])
